@@ -178,7 +178,7 @@ def segmentations(rng, n, bounds):
     return out
 
 
-def make_case(rng, role, msgs, bits="-", pre=0, ho=b"", nseg=None, enc=0):
+def make_case(rng, role, msgs, bits="-", pre=0, ho=b"", nseg=None, enc=0, segs_override=None):
     stream = b"".join(m.raw for m in msgs)
     bounds, p = [], 0
     for m in msgs:
@@ -211,14 +211,51 @@ def make_case(rng, role, msgs, bits="-", pre=0, ho=b"", nseg=None, enc=0):
     segs = segmentations(rng, len(stream), bounds)
     if nseg:
         segs = segs[:nseg]
+    if segs_override is not None:
+        segs = segs_override(len(stream))
     if role == "meta":
         enc = 0     # MSE towards a metadata download is not driven (the negotiation is C06's subject)
     return "role=%s np=%d bits=%s pre=%d cu=1 xv=%s ho=%s enc=%d stream=%s segs=%s" % (
         role, 1 if role == "meta" else NP, bits, pre, xv, ho.hex() or "-", enc, stream.hex() or "-", "/".join(segs))
 
 
-def hand_cases(rng):
+def two_cuts(step):
+    """whole + one split at every step-th offset"""
+    def f(n):
+        return ["k0:%d" % n] + ["k0:%d,%d" % (c, n - c) for c in range(1, n, step)]
+    return f
+
+
+def hand_cases(rng, tier="quick"):
     out = []
+    # (red-team seeds) extension messages with length prefix 0..3 followed by further bytes, every role, plain and encrypted
+    for role in ROLES:
+        for ln in (1, 2, 3):
+            for enc in (0, 1):
+                body = bytes([20]) + bytes([0, 0x64, 0x65][:max(0, ln - 1)])
+                ms = [M(msg(4, be32(0)), "have"), M(be32(ln) + body, "ext-len%d" % ln, ln >= 2), M(msg(4, be32(1)), "have"), M(msg(2), "int")]
+                out.append(make_case(rng, role, ms, enc=enc))
+        out.append(make_case(rng, role, [M(be32(1) + bytes([20]), "ext-len1")]))           # nothing follows: waits
+        out.append(make_case(rng, role, [M(be32(1) + bytes([20, 0xff]), "ext-len1+1")]))   # one more byte
+    # unrequested PIECE payloads on an ENCRYPTED leech connection, split at every offset: the discarded bytes must
+    # still advance the RC4 keystream
+    for n, step in ((200, 1), (600, 1 if tier != "quick" else 5), (0, 1), (1, 1), (499, 7), (3000, 97)):
+        ms = [M(msg(2), "int"), M(msg(7, be32(1) + be32(0) + bytes((7 * i) & 255 for i in range(n))), "piece-unrequested"),
+              M(msg(4, be32(3)), "have"), M(msg(4, be32(6)), "have"), M(msg(1), "unchoke")]
+        out.append(make_case(rng, "leech", ms, enc=1, segs_override=two_cuts(step)))
+        out.append(make_case(rng, "leech", ms, enc=0, segs_override=two_cuts(max(step, 11))))
+    # extension payloads split at every offset, encrypted
+    for role in ("seed", "leech"):
+        ms = [M(msg(20, b"\x00d1:md11:ut_metadatai2ee1:pi6881ee"), "ext-hs", True), M(msg(4, be32(2)), "have"),
+              M(msg(20, b"\x01" + bytes(range(90))), "ext-garbage", True), M(msg(2), "int")]
+        out.append(make_case(rng, role, ms, enc=1, segs_override=two_cuts(1)))
+    # REQUESTs whose begin+length wraps around 2^32 (and plain out-of-range ones) on upload-capable roles, unchoked, and
+    # the writer is released afterwards (D2): must close that connection only
+    for role in ("seed", "leechdone", "iseed", "leech"):
+        for off, ln in ((0xFFFFFFF0, 0x4000), (0xFFFFC000, 0x4000), (0xFFFFFFFF, 1), (0xFFFFFFFF, 0x20000), (16384, 1), (16383, 2), (0x80000000, 0x80000000)):
+            for enc in (0, 1):
+                ms = [M(msg(6, be32(0) + be32(0) + be32(1000)), "req"), M(msg(6, be32(1) + be32(off) + be32(ln)), "req-wrap"), M(msg(4, be32(1)), "have")]
+                out.append(make_case(rng, role, ms, pre=1, enc=enc, nseg=3))
     for role in ROLES:
         # every message kind once, with markers
         ms = [M(be32(0), "ka"), M(msg(2), "int"), M(msg(4, be32(3)), "have"), M(msg(6, be32(0) + be32(0) + be32(1000)), "req"),
@@ -284,7 +321,7 @@ def gen(seed, tier):
             if line and not line.startswith("#"):
                 cases.append(line)
                 stats["corpus"] += 1
-    hc = hand_cases(rng)
+    hc = hand_cases(rng, tier)
     stats["hand"] = len(hc)
     cases += hc
     n_grammar = 260 if tier == "quick" else 1500
